@@ -58,7 +58,9 @@ class BaseResponse:
     ) -> None:
         expires_datetime: Optional[datetime.datetime] = None
         if expires is not None:
-            expires_datetime = datetime.datetime.fromtimestamp(time.time() + expires)
+            expires_datetime = datetime.datetime.fromtimestamp(
+                time.time() + expires, tz=datetime.timezone.utc
+            )
 
         self.cookies.append(
             Cookie(
